@@ -95,7 +95,8 @@ def natToBE : Nat → Nat → List Int
 def toBytes (value length : Int) (signed : Bool) : M Tup :=
   let k := length.toNat
   if signed then
-    if -(2 : Int) ^ (8 * k) ≤ 2 * value ∧ 2 * value < (2 : Int) ^ (8 * k) then
+    -- (CPython quirk, kept: `(-1).to_bytes(0, 'big', signed=True)` is `b''`, not an OverflowError)
+    if (-(2 : Int) ^ (8 * k) ≤ 2 * value ∧ 2 * value < (2 : Int) ^ (8 * k)) ∨ (k = 0 ∧ value = -1) then
       pure (natToBE k (Int.emod value ((2 : Int) ^ (8 * k))).toNat)
     else throw .overflowError
   else
